@@ -56,6 +56,18 @@ void ares_cancel(ares_channel_t *channel)
       goto done;                        /* LCOV_EXCL_LINE: OutOfMemory */
     }
 
+    /* Every query present on entry is cancelled, also one that something
+     * else ends first: a callback below may submit a request that can't be
+     * written to a connection, closing it ends the queries on it that have no
+     * tries left.  Such a query must not report the connection error, or a
+     * lookup made of several queries (ares_gethostbyaddr(), ...) would carry
+     * on with its next query and survive ares_cancel(). */
+    for (node = ares_llist_node_first(list_copy); node != NULL;
+         node = ares_llist_node_next(node)) {
+      ares_query_t *query = ares_llist_node_val(node);
+      query->cancelled    = ARES_TRUE;
+    }
+
     /* Always take the first entry rather than remembering the next one: a
      * callback may end other queries of this list (e.g. a new request that
      * can't be written to a connection closes it, which requeues or fails the
